@@ -282,6 +282,7 @@ void EntityManager::applyCommandPack(TemporalStorage& storage, size_t begin, siz
 
     ComponentIdMask final_mask;
     ComponentIdMask initial_mask;
+    ComponentIdMask assigned_mask; // components that receive their value from an assign command of this pack
     SharedComponentsInfo shared;
     const auto entity = storage.actions_[begin].entity;
     const bool create = storage.actions_[begin].action == TemporalStorage::Action::kCreateEntity;
@@ -329,6 +330,7 @@ void EntityManager::applyCommandPack(TemporalStorage& storage, size_t begin, siz
             break;
         case TemporalStorage::Action::kAssignComponent:
             final_mask.set(command.component_id, true);
+            assigned_mask.set(command.component_id, true);
             break;
         default:
             break;
@@ -337,7 +339,7 @@ void EntityManager::applyCommandPack(TemporalStorage& storage, size_t begin, siz
 
     Archetype& archetype = getArchetype(final_mask, shared);
     if (create) {
-        archetype.insert(entity, initial_mask.inverse());
+        archetype.insert(entity, assigned_mask);
     }
     else if (initial_mask != final_mask) {
         const auto location = locations_[entity.id()];
